@@ -22,14 +22,16 @@ CFG = {'lean_modules': ['ObiVerif.Props.C01'],
                'example) and the chunk texts in order are the file minus runs of end-of-line bytes, none empty (chunks_reassemble); the three real splitters '
                'satisfy that contract (splitFasta_contract, splitFastq_contract, splitFlat_contract => chunks_all_formats). (2) EndOfLastFastaEntry returns -1 '
                'or the offset >= 1 of a ">" that follows an end-of-line byte (splitFasta_spec); a non-negative EndOfLastFastqEntry result follows an '
-               'end-of-line byte (splitFastq_line_start). (3) FASTA end to end: every chunk of a whole-records text is a whole number of records '
+               'end-of-line byte (splitFastq_line_start); the bytes before a non-negative EndOfLastFlatFileEntry result end with LF // LF or LF // CR LF '
+               '(splitFlat_spec). (2b) EMBL record locality: if a ends with an end-of-record line, parseEmbl (a ++ b) = records of a then records of b for every b '
+               '(parseEmbl_append; false for the unrepaired parser). (3) FASTA end to end: every chunk of a whole-records text is a whole number of records '
                '(chunks_cut_at_boundaries); parsing c1 ++ eols ++ ">"... gives the records of c1 then those of the rest and fails exactly as the rest fails '
                '(parseFasta_append); reader_independent: for every text the chunk parser reads as a whole number of records, every buffer size >= 2 and EVERY '
                'arrival permutation of the numbered parsed chunks at SortBatches (any number of workers, any interleaving), the released batches are '
                'error-free and carry, in order, exactly the records of the one-chunk parse; wellFormed_complete + reader_independent_wellFormed: the same for '
                'every file of an explicit FASTA grammar (titles with any byte but CR/LF incl. > @ +, folded sequences, LF/CRLF/blank lines). '
                'TIED BY CORRESPONDENCE ONLY (modelled verbatim, theorems stated in comments, not proved): that a non-negative EndOfLastFastqEntry result is a '
-               'record start (line-cycle argument) and FASTQ record locality; the cut pattern of EndOfLastFlatFileEntry and GenBank/EMBL record locality; '
+               'record start (line-cycle argument) and FASTQ record locality; the composition reader_independent for EMBL (needs a regular-line-end hypothesis) and GenBank record locality; '
                'record content = what the record text implies is checked by the naive reference oracle on the real code, not proved. The C/kseq stdin reader '
                'is not modelled: two-parser agreement oracle only.',
  'level_note': 'Defects found by the oracle on the unmodified code and repaired in /repo (patches in notes/patches/C01-*.diff): GenBank/EMBL parsers kept '
